@@ -932,3 +932,114 @@ func sVoteIdentity(c *Ctx, rule string) {
 		})
 	}
 }
+
+
+// S-COMMITCFG: configurations.committed follows the commit index. Every site
+// that raises the commit index decides, in the same pass, whether the latest
+// configuration entry is now covered, and promotes it when it is. At start-up
+// the commit index may be restored from the log store (RestoreCommittedLogs)
+// before the configuration scan has run; the scan deliberately leaves
+// "committed" one configuration behind "latest" (right while the commit index
+// is unknown), so NewRaft has to make that decision after the scan. A stale
+// committed configuration blocks membership changes for ever and is what the
+// next snapshot records – after compaction the committed change is gone.
+func sCommitCoversConfig(c *Ctx, rule string) {
+	isPromote := func(in ssa.Instruction) bool {
+		cc := engine.CallCommonOf(in)
+		if cc == nil || c.P.CalleeName(cc) != "(*Raft).setCommittedConfiguration" {
+			return false
+		}
+		return strings.HasSuffix(c.P.Arg(in, 0), ".configurations.latest") && strings.HasSuffix(c.P.Arg(in, 1), ".configurations.latestIndex")
+	}
+	covers := func(commitDescs ...string) engine.Track {
+		return engine.PredCond("covers", func(cd engine.Cond) (bool, int) {
+			cd, _ = cd.With(func(d string) bool { return strings.HasSuffix(d, ".configurations.latestIndex") })
+			if !cd.IsRel || !strings.HasSuffix(cd.X, ".configurations.latestIndex") {
+				return false, 0
+			}
+			for _, y := range commitDescs {
+				if cd.Y == y {
+					switch cd.EdgeOrd(true) {
+					case engine.LT | engine.EQ:
+						return true, engine.True
+					case engine.GT:
+						return true, engine.False
+					}
+				}
+			}
+			return false, 0
+		})
+	}
+	c.WhoMay(rule, "call (*raftState).setCommitIndex", c.P.CallsEverywhere(engine.Is("(*raftState).setCommitIndex")), map[string]string{
+		"(*Raft).leaderLoop":               "commit arm: promotion decided right after",
+		"(*Raft).appendEntries":            "follower: promotion decided right after",
+		"(*Raft).restoreFromCommittedLogs": "start-up: promotion decided by NewRaft after the configuration scan",
+	})
+	c.WhoMay(rule, "call (*Raft).restoreFromCommittedLogs", c.P.CallsEverywhere(engine.Is("(*Raft).restoreFromCommittedLogs")), map[string]string{"NewRaft": "once, before the configuration scan"})
+	// follower
+	if fn := c.Fn(rule, "(*Raft).appendEntries"); fn != nil {
+		for _, s := range c.P.CallsIn(fn, engine.Is("(*raftState).setCommitIndex")) {
+			idx := c.P.Arg(s.Instr, 0)
+			r := c.Run(&engine.Automaton{Fn: fn, StartAfter: s.Instr, Tracks: []engine.Track{covers(idx), engine.Event("promoted", isPromote)}})
+			for i, ret := range engine.ReturnsOf(fn) {
+				if len(r.StatesAt(ret)) == 0 {
+					continue
+				}
+				c.RequireAt(r, rule, fmt.Sprintf("appendEntries:commit-covers-configuration#%d", i+1), ret, "after raising the commit index to idx the follower tests latestIndex <= idx and, when true, makes the latest configuration the committed one", func(v engine.View) bool {
+					return v.F("covers") || (v.T("covers") && v.Seen("promoted"))
+				})
+			}
+		}
+	}
+	// leader
+	if fn := c.Fn(rule, "(*Raft).leaderLoop"); fn != nil {
+		for _, s := range c.P.CallsIn(fn, engine.Is("(*raftState).setCommitIndex")) {
+			idx := c.P.Arg(s.Instr, 0)
+			// "newer": the latest configuration lies above the commit index as it
+			// was before this pass (at or below it, it was promoted by an earlier
+			// pass – the invariant NewRaft has to establish)
+			r := c.Run(&engine.Automaton{Fn: fn, StartAfter: s.Instr, StopAt: isSelect, Tracks: []engine.Track{
+				engine.PredRel("newer", "recv.configurations.latestIndex", "recv.raftState.getCommitIndex()", engine.GT),
+				covers(idx), engine.Event("promoted", isPromote)}})
+			n := 0
+			engine.EachInstr(fn, func(in ssa.Instruction) {
+				if !isSelect(in) || len(r.StatesAt(in)) == 0 {
+					return
+				}
+				n++
+				c.RequireAt(r, rule, "leaderLoop:commit-covers-configuration", in, "after raising the commit index the leader tests oldCommit < latestIndex <= commitIndex and, when true, makes the latest configuration the committed one before the next select", func(v engine.View) bool {
+					return v.F("newer") || v.F("covers") || (v.T("covers") && v.Seen("promoted"))
+				})
+			})
+			if n == 0 {
+				c.Bad(rule, "leaderLoop:commit-covers-configuration", c.P.InstrPos(s.Instr), "the commit arm returns to the select", "not reached")
+			}
+		}
+	}
+	// start-up
+	if fn := c.Fn(rule, "NewRaft"); fn != nil {
+		r := c.Run(&engine.Automaton{Fn: fn, Tracks: []engine.Track{
+			engine.Event("restored", c.P.IsCallTo(engine.Is("(*Raft).restoreFromCommittedLogs"))),
+			engine.Event("scanned", c.P.IsCallTo(engine.Is("(*Raft).processConfigurationLogEntry")), "covers", "promoted"),
+			covers("new(Raft).raftState.getCommitIndex()"),
+			engine.Event("promoted", isPromote),
+		}})
+		n := 0
+		for i, ret := range engine.ReturnsOf(fn) {
+			vals := engine.ReturnValues(ret)
+			if len(vals) != 2 || c.P.D(vals[1]) != "nil" {
+				continue
+			}
+			n++
+			c.RequireAt(r, rule, fmt.Sprintf("NewRaft:restored-commit-covers-configuration#%d", i+1), ret, "after the configuration scan NewRaft tests latestIndex <= getCommitIndex() (the commit index restoreFromCommittedLogs may have restored) and, when true, makes the latest configuration the committed one", func(v engine.View) bool {
+				if !v.Seen("restored") {
+					return true
+				}
+				return v.F("covers") || (v.T("covers") && v.Seen("promoted"))
+			})
+		}
+		if n == 0 {
+			c.Bad(rule, "NewRaft:success-returns", c.P.Pos(fn.Pos()), "a (r, nil) return", "none")
+		}
+	}
+}
